@@ -187,7 +187,8 @@ def generate(rng, tier, cls):
     cs = consumers(rng)
 
     if cls == 'read_error':
-        faults.append({'kind': 'read_error', 'reader': 'D2',
+        faults.append({'kind': rng.choice(['read_error', 'read_error',
+                                           'seek_error']), 'reader': 'D2',
                        'call': rng.below(12)})
 
     sched = []
@@ -269,7 +270,7 @@ def execute(scn, L):
                     out.violate('C08.record-type', 'reader', None)
         elif a.kind == 'dom_load' and a.end is not None:
             via = a.spec.get('via')
-            injected = any(f['kind'] == 'read_error' and
+            injected = any(f['kind'] in ('read_error', 'seek_error') and
                            f.get('reader') == a.id
                            for f in scn.get('faults', ()))
 
@@ -301,8 +302,9 @@ def execute(scn, L):
                     out.probe('closed_after_' + ('failure' if a.end != 'ok'
                                                  else 'success'))
 
-                if injected and w.faults.get('read_error'):
-                    out.probe('read_error_fired')
+                if injected and (w.faults.get('read_error') or
+                                 w.faults.get('seek_error')):
+                    out.probe('io_error_fired')
 
     if seen is None:
         out.discarded = 'no-consumer-ran'
